@@ -110,7 +110,7 @@ impl Check for C01 {
         let mut fr = Rng::derive(seed, "faults");
         let mut tr = Rng::derive(seed, "tape");
         let hash_key = Rng::derive(seed, "hash").next_u64();
-        let gcfg = GenCfg::valid_only(&mut wl);
+        let gcfg = GenCfg { large: true, ..GenCfg::valid_only(&mut wl) };
         let fcfg = FaultCfg::draw(&mut fr);
         let n_dgrams = 1 + wl.below(4);
         let mut bases = Vec::new();
